@@ -11,6 +11,8 @@ import (
 // Gen draws everything a run needs from one PRNG.
 type Gen struct {
 	focusShare bool
+	distinctY  bool           // generic position: no two vertices of the run's inputs share a Y
+	usedY      map[int64]bool
 	r    *rand.Rand
 	big  bool // thorough tier: larger inputs in the mix
 	pool []PoolEntry
@@ -278,7 +280,31 @@ func (g *Gen) pathSet64(open bool, small bool) clip.Paths64 {
 	if out == nil {
 		out = clip.Paths64{}
 	}
+	g.spreadY(out)
 	return out
+}
+
+// spreadY moves vertices up by a few units until every Y of the run is used
+// once (only in runs drawn as "generic position").
+func (g *Gen) spreadY(ps clip.Paths64) {
+	if !g.distinctY {
+		return
+	}
+	if g.usedY == nil {
+		g.usedY = map[int64]bool{}
+	}
+	step := int64(1)
+	if g.pal.ddiv > 1 {
+		step = 1 // D inputs are divided by ddiv later; ties may come back through rounding, the oracle checks
+	}
+	for _, p := range ps {
+		for i := range p {
+			for g.usedY[p[i].Y] {
+				p[i].Y += step
+			}
+			g.usedY[p[i].Y] = true
+		}
+	}
 }
 
 // manySet: a set of 64..400 small polygons (size thresholds of batch code
@@ -395,6 +421,7 @@ func (g *Gen) addPoolD(open, small bool) int {
 
 func (g *Gen) initPool() {
 	g.initPalette()
+	g.distinctY = g.pal.S >= 1e4 && g.p(0.6)
 	n64 := g.rng(3, 6)
 	for i := 0; i < n64; i++ {
 		g.addPool64(false, false)
